@@ -395,14 +395,22 @@ class State:
         r = z3.Const(fresh_name(hint), REF)
         a = self.alloc_arr()
         self.assume(z3.Not(z3.Select(a, r)))
+        fr = self.ghost.get("@fresh", ())
+        if fr:
+            self.assume(z3.And(*[r != x for x in fr]))       # derivable from the allocation map; stated outright to keep queries easy
+        self.ghost["@fresh"] = tuple(fr) + (r,)
         self.heap["alloc"] = z3.Store(a, r, z3.BoolVal(True))
         return r
 
-    def assume_alloc(self, v):
-        """well-formed-heap axiom instance: every reference read from the heap / passed in is allocated"""
+    def assume_alloc(self, v, source=None):
+        """well-formed-heap axiom instance: every reference read from the heap / passed in is allocated.
+        A value read from a heap map that is still the entry map (constant H0_*) was already allocated at entry."""
         ty = strip_opt(v.ty)
         if ty[0] in ("ref", "list", "dict", "set") and v.term is not None:
-            c = self.is_alloc(v.term)
+            if source is not None and z3.is_const(source) and source.decl().name().startswith("H0_"):
+                c = z3.Select(z3.Const("H0_alloc", z3.ArraySort(REF, z3.BoolSort())), v.term)
+            else:
+                c = self.is_alloc(v.term)
             if v.ty[0] == "opt" and v.none is not None:
                 c = z3.Or(v.none, c)
             self.assume(c)
